@@ -348,7 +348,9 @@ def units(tier, seed):
         writers = ["scale_P", "affine_P", "mul_P", "muladd", "precompute", "precompute_eager"]
         pairs = [(a, b) for (a, b) in pairs if (a in MUTATORS and b in SECOND_QUICK) or (a in readers and b in writers)]
         pairs += [(a, b) for a in NOORDER for b in NOORDER] + [("precompute_noorder", "pub_x"), ("verify_noorder", "verify"),
-                                                               ("verify", "verify_noorder")]
+                                                               ("verify", "verify_noorder"),
+                                                               ("verify", "verify_bad"), ("verify_bad", "verify"),
+                                                               ("verify_bad", "verify_bad")]
     # balance: long first operations first
     chunks = 30 if q else 60
     for i in range(chunks):
